@@ -732,13 +732,12 @@ def main(argv=None):
         elif only == 'D' and not case.get('plain'):
             sched_cases = [case]
     # ---- A
-    corpus = [
-        ['reset mapping', 'store 0000000000000003', 'finish', 'newoid', 'newoid', 'newoid', 'newoid'],
-        ['reset file', 'restore 4142434445464748', 'finish', 'newoid', 'reopen noindex', 'newoid'],
-        ['reset file', 'store ffffffffffffffff', 'newoid', 'abort', 'newoid', 'reopen', 'newoid'],
-        ['reset file', 'store 00000000000000ff', 'finish', 'storeroot -', 'finish', 'pack', 'newoid', 'reopen',
-         'newoid'],
-    ]
+    corpus = []
+    cdir = os.path.join(os.path.dirname(os.path.dirname(os.path.abspath(__file__))), 'corpus', 'C20')
+    for fn in sorted(os.listdir(cdir)) if os.path.isdir(cdir) else []:
+        if fn.endswith('.json'):
+            with open(os.path.join(cdir, fn)) as f:
+                corpus.append(json.load(f)['ops'])
     if not ck.replay_path:
         cases_a += corpus
     for i in range(nA):
